@@ -23,6 +23,8 @@ func checkC17(c *Ctx) {
 	c.checkSignatureGate()
 	c.checkElection()
 	c.checkPartition()
+	c.checkVoteRepliesDistinct()
+	c.checkActiveNodesExact()
 }
 
 func (c *Ctx) checkRing() {
